@@ -79,16 +79,20 @@ def Dom.ts [Add R] [Sub R] [Mul R] [Div R] [NatCast R] (d : Dom R) (i : Nat) : R
 def Dom.at [Add R] [Sub R] [Mul R] [Div R] [NatCast R] (d : Dom R) (i : Nat) : R :=
   d.tMin + (i : R) * d.dt
 
+/-- the `np.abs(domain.dt - dt) / dt >= 1e-8` check at the end of `create_aligned` -/
+def checkDt [Sub R] [Div R] [NatCast R] [LE R] [DecidableLE R] [Analytic R] (tol dt : R) (d : Dom R) :
+    Except Err (Dom R) :=
+  if tol ≤ Analytic.abs (d.dt - dt) / dt then .error .dtMismatch else .ok d
+
 /-- `Domain.create_aligned(t_min, t_max, dt)`; `tol` is the literal `1e-8` -/
 def createAligned [Zero R] [Add R] [Sub R] [Mul R] [Div R] [NatCast R] [IntCast R] [LE R] [DecidableLE R]
     [Analytic R] (tol : R) (tMin tMax dt : R) : Except Err (Dom R) :=
   let lo : R := ((Analytic.floor (tMin / dt) : Int) : R) * dt
   let hi : R := ((Analytic.ceil (tMax / dt) : Int) : R) * dt
   let size : Int := Analytic.round ((hi - lo) / dt) + 1
-  let (size, hi) := if size % 2 = 1 then (size + 1, hi + dt) else (size, hi)
-  match Dom.mk? lo hi size with
-  | .error e => .error e
-  | .ok d => if tol ≤ Analytic.abs (d.dt - dt) / dt then .error .dtMismatch else .ok d
+  let size' : Int := if size % 2 = 1 then size + 1 else size
+  let hi' : R := if size % 2 = 1 then hi + dt else hi
+  (Dom.mk? lo hi' size').bind (checkDt tol dt)
 
 end dom
 
@@ -175,12 +179,25 @@ def tree [Zero R] [Add R] [Mul R] : Nat → List (DPrv R) → Except Err (DPrv R
 def composeConvolutionTree [Zero R] [Add R] [Mul R] (l : List (DPrv R)) : Except Err (DPrv R) :=
   tree l.length l
 
+/-- the list comprehension `[_compose_fourier(dprv, n) for dprv, n in zip(dprvs, ns)]` (first exception wins) -/
+def fourierAll [Zero R] [One R] [Add R] [Mul R] [IntCast R] :
+    List (DPrv R) → List Nat → Except Err (List (DPrv R))
+  | d :: ds, n :: ns =>
+    match composeFourier d n with
+    | .error e => .error e
+    | .ok c =>
+      match fourierAll ds ns with
+      | .error e => .error e
+      | .ok cs => .ok (c :: cs)
+  | _, _ => .ok []
+
 def composeHeterogeneous [Zero R] [One R] [Add R] [Mul R] [IntCast R]
     (ds : List (DPrv R)) (ns : List Nat) : Except Err (DPrv R) :=
   if ds.length ≠ ns.length then .error .lenMismatch
-  else do
-    let cs ← (ds.zip ns).mapM fun (d, n) => composeFourier d n
-    composeConvolutionTree cs
+  else
+    match fourierAll ds ns with
+    | .error e => .error e
+    | .ok cs => composeConvolutionTree cs
 
 /-! ## DiscretePRV.compute_epsilon / compute_delta_estimate -/
 
